@@ -26,11 +26,11 @@ use ironcalc_base::types::{CellType, Col, Link};
 use ironcalc_base::{Model, UserModel};
 use std::collections::{BTreeMap, HashMap};
 
-const LAST_ROW: i64 = 1_048_576;
-const LAST_COLUMN: i64 = 16_384;
+pub(crate) const LAST_ROW: i64 = 1_048_576;
+pub(crate) const LAST_COLUMN: i64 = 16_384;
 const COL_WINDOW: i32 = 60;
 
-fn last(ax: &str) -> i64 {
+pub(crate) fn last(ax: &str) -> i64 {
     if ax == "c" {
         LAST_COLUMN
     } else {
@@ -53,7 +53,7 @@ fn prefix_of(kind: &str) -> &'static str {
 
 /// where the line `x` ends up: insert `k` lines at `pos`; delete `k` lines at `pos`; move the block
 /// `[pos, pos+n)` by `d`.  `None` = deleted.
-fn spec_sigma(kind: &str, pos: i64, n: i64, d: i64, x: i64) -> Option<i64> {
+pub(crate) fn spec_sigma(kind: &str, pos: i64, n: i64, d: i64, x: i64) -> Option<i64> {
     match kind {
         "ins" => Some(if x >= pos { x + n } else { x }),
         "del" => {
@@ -85,24 +85,24 @@ fn spec_sigma(kind: &str, pos: i64, n: i64, d: i64, x: i64) -> Option<i64> {
 // ------------------------------------------------------------------------------------------------
 
 #[derive(Clone, Debug)]
-struct Pt {
-    ra: bool,
-    r: i64,
-    ca: bool,
-    c: i64,
+pub(crate) struct Pt {
+    pub(crate) ra: bool,
+    pub(crate) r: i64,
+    pub(crate) ca: bool,
+    pub(crate) c: i64,
 }
 
 #[derive(Clone, Debug)]
-enum Atom {
+pub(crate) enum Atom {
     Ref { sheet: u32, named: bool, p: Pt },
     Rng { sheet: u32, named: bool, a: Pt, b: Pt },
 }
 
-fn b01(s: &str) -> bool {
+pub(crate) fn b01(s: &str) -> bool {
     s == "1"
 }
 
-fn parse_atom(f: &[&str]) -> Option<Atom> {
+pub(crate) fn parse_atom(f: &[&str]) -> Option<Atom> {
     match f.first().copied() {
         Some("ref") if f.len() == 7 => Some(Atom::Ref {
             sheet: f[1].parse().ok()?,
@@ -119,7 +119,7 @@ fn parse_atom(f: &[&str]) -> Option<Atom> {
     }
 }
 
-fn atom_fields(a: &Atom, sep: &str) -> String {
+pub(crate) fn atom_fields(a: &Atom, sep: &str) -> String {
     let b = |x: bool| if x { "1" } else { "0" };
     match a {
         Atom::Ref { sheet, named, p } => {
@@ -143,11 +143,11 @@ fn atom_fields(a: &Atom, sep: &str) -> String {
     }
 }
 
-fn sheet_name(i: u32) -> String {
+pub(crate) fn sheet_name(i: u32) -> String {
     format!("Sheet{}", i + 1)
 }
 
-fn pt_text(p: &Pt, omit_row: bool, omit_col: bool) -> String {
+pub(crate) fn pt_text(p: &Pt, omit_row: bool, omit_col: bool) -> String {
     let col = if omit_col {
         String::new()
     } else {
@@ -157,16 +157,16 @@ fn pt_text(p: &Pt, omit_row: bool, omit_col: bool) -> String {
     format!("{col}{row}")
 }
 
-fn is_full_rows(a: &Pt, b: &Pt) -> bool {
+pub(crate) fn is_full_rows(a: &Pt, b: &Pt) -> bool {
     // a range over whole columns (A:B): both row parts absolute, 1 and LAST_ROW
     a.ra && b.ra && a.r.min(b.r) == 1 && a.r.max(b.r) == LAST_ROW
 }
-fn is_full_cols(a: &Pt, b: &Pt) -> bool {
+pub(crate) fn is_full_cols(a: &Pt, b: &Pt) -> bool {
     a.ca && b.ca && a.c.min(b.c) == 1 && a.c.max(b.c) == LAST_COLUMN
 }
 
 /// the A1 text a user would type for the atom
-fn atom_text(a: &Atom) -> String {
+pub(crate) fn atom_text(a: &Atom) -> String {
     match a {
         Atom::Rng { a: p, b: q, .. } => {
             let fr = is_full_rows(p, q);
@@ -178,7 +178,7 @@ fn atom_text(a: &Atom) -> String {
 
 /// the same with the whole-column / whole-row spelling decided by the caller (a displaced range is
 /// printed in the spelling of the range it came from)
-fn atom_text_as(a: &Atom, fr: bool, fc: bool) -> String {
+pub(crate) fn atom_text_as(a: &Atom, fr: bool, fc: bool) -> String {
     match a {
         Atom::Ref { sheet, named, p } => {
             let pre = if *named { format!("{}!", sheet_name(*sheet)) } else { String::new() };
@@ -537,7 +537,7 @@ fn parse_item(t: &str) -> Option<Item> {
     }
 }
 
-fn fill(tpl: &str, parts: &[String]) -> String {
+pub(crate) fn fill(tpl: &str, parts: &[String]) -> String {
     let mut out = String::new();
     let mut it = parts.iter();
     let mut rest = tpl;
